@@ -31,6 +31,8 @@ from .sym import (
     round_half_even,
     trunc_real,
     wrap,
+    zabs,
+    norm_cmp,
     zpow,
 )
 
@@ -217,6 +219,12 @@ class Shape:
         if isinstance(n, int):
             return n
         raise Unsupported("len() of a shape with unknown rank")
+
+    def __bool__(self):
+        n = self.ndim()
+        if isinstance(n, int):
+            return n > 0
+        return cur().branch(num(n) > 0)
 
     def __getitem__(self, k):
         items = self.items
@@ -568,6 +576,8 @@ class T:
         else:
             r = T(out_f, rt, tlen, taxis, _merge_eshape(self, other), out_nan)
         r.pure_time = self.pure_time and (not isinstance(other, T) or other.pure_time)
+        if getattr(self, "scalar_like", False) and (not isinstance(other, T) or getattr(other, "scalar_like", False)):
+            r.scalar_like = True
         return r
 
     # arithmetic
@@ -591,11 +601,15 @@ class T:
 
     def __truediv__(self, o):
         _div_guard(o)
-        return self._binop(o, lambda x, y: x / y, "div")
+        from .sym import cancel_div
+
+        return self._binop(o, lambda x, y: cancel_div(x, y), "div")
 
     def __rtruediv__(self, o):
+        from .sym import cancel_div
+
         _div_guard(self)
-        return self._binop(o, lambda x, y: x / y, "div", swap=True)
+        return self._binop(o, lambda x, y: cancel_div(x, y), "div", swap=True)
 
     def __pow__(self, o):
         return self._binop(o, lambda x, y: zpow(x, y), "arith")
@@ -610,10 +624,10 @@ class T:
 
                 return pymod_int(x, y)
             if (z3.is_rational_value(y) and y.numerator_as_long() == y.denominator_as_long()) or (z3.is_int_value(y) and y.as_long() == 1):
-                return x - z3.ToReal(z3.ToInt(x))
+                return x - z3.ToReal(floor_real(x))
             ex = Explorer.current
             if ex is not None and ex.implied(y > 0):
-                return x - y * z3.ToReal(z3.ToInt(x / y))
+                return x - y * z3.ToReal(floor_real(x / y))
             raise Unsupported("tensor % with non-positive divisor")
 
         return self._binop(o, md, "arith")
@@ -625,7 +639,7 @@ class T:
         return self
 
     def __abs__(self):
-        return self._map(lambda x: z3.If(x >= 0, x, -x))
+        return self._map(lambda x: zabs(x))
 
     def abs(self):
         return self.__abs__()
@@ -649,21 +663,21 @@ class T:
         return self._binop(o, lambda x, y: z3.Xor(x, y), "logic")
 
     def __lt__(self, o):
-        return self._binop(o, lambda x, y: x < y, "cmp")
+        return self._binop(o, lambda x, y: norm_cmp("<", x, y), "cmp")
 
     def __le__(self, o):
-        return self._binop(o, lambda x, y: x <= y, "cmp")
+        return self._binop(o, lambda x, y: norm_cmp("<=", x, y), "cmp")
 
     def __gt__(self, o):
-        return self._binop(o, lambda x, y: x > y, "cmp")
+        return self._binop(o, lambda x, y: norm_cmp(">", x, y), "cmp")
 
     def __ge__(self, o):
-        return self._binop(o, lambda x, y: x >= y, "cmp")
+        return self._binop(o, lambda x, y: norm_cmp(">=", x, y), "cmp")
 
     def __eq__(self, o):  # noqa
         if o is None or isinstance(o, (str, tuple, list)):
             return False
-        return self._binop(o, lambda x, y: x == y, "cmp")
+        return self._binop(o, lambda x, y: norm_cmp("==", x, y), "cmp")
 
     def __ne__(self, o):  # noqa
         if o is None or isinstance(o, (str, tuple, list)):
@@ -1227,7 +1241,9 @@ def where(cond, a, b):
         return z3.If(fc2(t), nxv, nyv)
 
     has_nan = nx is not None or ny is not None
-    es = _merge_eshape(x, y) or getattr(c, "eshape", None)
+    es = _merge_eshape(x, y)
+    if es is None:
+        es = getattr(c, "eshape", None)
     if tl2 is None:
         return T(val(None), rt, None, None, es, nanf(None) if has_nan else None)
     return T(val, rt, tl2, ta2, es, nanf if has_nan else None)
